@@ -391,7 +391,16 @@ def r8_mus_event_bytes(facts):
         n = incs_expr(t)
         return (n, n)
     def incs_expr(e):
-        return sum(1 for y in walk(e) if isinstance(y, dict) and is_incdec(y) and y.get('op') == '++' and (strip(y['e']).get('t') or {}).get('p') and short(strip(y['e']).get('n', '')) == 'cur')
+        n_ = 0
+        for y in walk(e):
+            if not isinstance(y, dict):
+                continue
+            if is_incdec(y) and y.get('op') == '++' and (strip(y['e']).get('t') or {}).get('p') and short(strip(y['e']).get('n', '')) == 'cur':
+                n_ += 1
+            ap = assign_parts(y)
+            if ap and ap[2] == '+=' and short(strip(ap[0]).get('n', '')) == 'cur' and (strip(ap[0]).get('t') or {}).get('p') and const_of(ap[1]) is not None:
+                n_ += const_of(ap[1])
+        return n_
     arms = {}
     cur = None
     for it in (sws[0].get('body') or {}).get('body', []):
